@@ -121,7 +121,9 @@ impl<'a> PeView<'a> {
 			let src = image.get(section.VirtualAddress as usize..u32::wrapping_add(section.VirtualAddress, section.VirtualSize) as usize);
 			// Skip invalid sections...
 			if let (Some(dest), Some(src)) = (dest, src) {
-				dest.copy_from_slice(src);
+				// VirtualSize and SizeOfRawData differ in general, the remainder of dest stays zero filled
+				let len = usize::min(dest.len(), src.len());
+				dest[..len].copy_from_slice(&src[..len]);
 			}
 		}
 
